@@ -199,14 +199,14 @@ pub fn run_c14(tier: &str, seed: u64) -> Report {
         return total;
     }
     let n_for = |p: P| match (p, thorough) {
-        (P::V4L, false) => 6000,
-        (P::V1P, false) => 100,
-        (P::V3P, false) => 150,
-        (_, false) => 300,
-        (P::V4L, true) => 200_000,
-        (P::V1P, true) => 3000,
-        (P::V3P, true) => 5000,
-        (_, true) => 20_000,
+        (P::V4L, false) => 20_000,
+        (P::V1P, false) => 250,
+        (P::V3P, false) => 400,
+        (_, false) => 1500,
+        (P::V4L, true) => 2_000_000,
+        (P::V1P, true) => 10_000,
+        (P::V3P, true) => 20_000,
+        (_, true) => 150_000,
     };
     let mut items: Vec<(P, usize)> = Vec::new();
     for &p in &ALL {
@@ -381,7 +381,7 @@ pub fn replay_c14(case: &Value) -> Report {
     r
 }
 
-pub const RULE_C14: &str = "seeded random histories of 0..12 (every 16th: 0..60) set_claim/remove_claim operations on GenericBuilder (6000 on v4.local, 100-300 on each other protocol; thorough 2e5 / 3e3-2e4) plus a fixed corner catalogue: keys = non-empty Unicode (escapes, NUL, non-BMP, 200-byte keys, near-reserved names, keys equal to a member name inside their own value); values = JSON trees of depth <= 5 (i64/u64 extremes, exact short decimals, empty containers, null), native Rust values through Serialize (structs, tuples, Option, Vec, BTreeMap, enums, char, bytes) and registered claims through their typed constructors; the token is parsed back with a validator-free GenericParser and the whole object compared (serde_json equality) with a model map (last write wins, remove deletes) built by the harness. Plus multi-build histories (1500 on v4.local, 30-150 elsewhere; thorough 4e4): ONE GenericBuilder is driven through 3-17 set/remove/footer/assertion/build steps and EVERY token it emits must equal the model at that point. distinct_nontrivial = distinct (protocol, #ops, #sets, #members, value-shape signature) that built, parsed and compared equal";
+pub const RULE_C14: &str = "seeded random histories of 0..12 (every 16th: 0..60) set_claim/remove_claim operations on GenericBuilder (20000 on v4.local, 250-1500 on each other protocol; thorough 2e6 / 1e4-1.5e5) plus a fixed corner catalogue: keys = non-empty Unicode (escapes, NUL, non-BMP, 200-byte keys, near-reserved names, keys equal to a member name inside their own value); values = JSON trees of depth <= 5 (i64/u64 extremes, exact short decimals, empty containers, null), native Rust values through Serialize (structs, tuples, Option, Vec, BTreeMap, enums, char, bytes) and registered claims through their typed constructors; the token is parsed back with a validator-free GenericParser and the whole object compared (serde_json equality) with a model map (last write wins, remove deletes) built by the harness. Plus multi-build histories (1500 on v4.local, 30-150 elsewhere; thorough 4e4): ONE GenericBuilder is driven through 3-17 set/remove/footer/assertion/build steps and EVERY token it emits must equal the model at that point. distinct_nontrivial = distinct (protocol, #ops, #sets, #members, value-shape signature) that built, parsed and compared equal";
 
 // ==========================================================================================
 // C15
@@ -1116,14 +1116,14 @@ pub fn run_c16(tier: &str, seed: u64) -> Report {
         return total;
     }
     let n_for = |p: P| match (p, thorough) {
-        (P::V4L | P::V4P, false) => 2500,
-        (P::V1P, false) => 60,
-        (P::V3P, false) => 100,
-        (_, false) => 200,
-        (P::V4L | P::V4P, true) => 50_000,
-        (P::V1P, true) => 1500,
-        (P::V3P, true) => 2500,
-        (_, true) => 6000,
+        (P::V4L | P::V4P, false) => 10_000,
+        (P::V1P, false) => 200,
+        (P::V3P, false) => 300,
+        (_, false) => 1000,
+        (P::V4L | P::V4P, true) => 500_000,
+        (P::V1P, true) => 6000,
+        (P::V3P, true) => 10_000,
+        (_, true) => 60_000,
     };
     let mut items: Vec<(P, usize)> = Vec::new();
     for &p in &ALL {
